@@ -240,6 +240,8 @@ struct Setup {
     /// how long host names are cached (`--dns-ttl`): 0 = the default (the shared resolver), 1 = not at all (0 s),
     /// 2 = "for ever" (the largest duration the option accepts)
     dns_ttl: u8,
+    /// the UI locale (`--tui-locale`): index into the available locales, 0 = English
+    locale: u8,
 }
 
 impl Setup {
@@ -250,7 +252,7 @@ impl Setup {
             .map(|t| format!("{}{}f{}t{}p{}", if t.v6 { "v6" } else { "v4" }, if t.with_source { "s" } else { "" }, t.max_flows, t.first_ttl, t.proto))
             .collect();
         format!(
-            "setup[traces={} privacy={} max_addrs={} columns={} addr_mode={} geoip={} ext={} dns_ttl={}]",
+            "setup[traces={} privacy={} max_addrs={} columns={} addr_mode={} geoip={} ext={} dns_ttl={} locale={}]",
             tr.join("+"),
             opt(self.privacy),
             opt(self.max_addrs),
@@ -258,7 +260,8 @@ impl Setup {
             self.addr_mode,
             self.geoip_mode,
             self.ext_mode,
-            self.dns_ttl
+            self.dns_ttl,
+            self.locale
         )
     }
 }
@@ -752,7 +755,11 @@ fn new_live(ctx: &Ctx, setup: &Setup) -> Live {
         geoip_mmdb_file: if setup.geoip_mode >= 4 { ctx.geoip_db.as_ref().map(|p| p.to_string_lossy().to_string()) } else { None },
         ..TrippyConfig::default()
     };
-    let tui_config = verif_make_tui_config(&cfg, "en".to_string());
+    // the UI locale, set the way the application sets it (all texts, widths of wide characters included, follow it)
+    let locales = trippy_tui::verif::available_locales();
+    let locale = if setup.locale == 0 || locales.is_empty() { "en".to_string() } else { locales[usize::from(setup.locale) % locales.len()].to_string() };
+    let locale = trippy_tui::verif::set_locale(Some(&locale));
+    let tui_config = verif_make_tui_config(&cfg, locale);
     let traces: Vec<TraceInfo> = setup
         .traces
         .iter()
@@ -1089,6 +1096,7 @@ fn shrink_setup(ctx: &Ctx, setup: &Setup, ops: &[Op], site: &str) -> Setup {
         Box::new(|s| s.geoip_mode = 0),
         Box::new(|s| s.ext_mode = 0),
         Box::new(|s| s.dns_ttl = 0),
+        Box::new(|s| s.locale = 0),
         Box::new(|s| s.traces.iter_mut().for_each(|t| t.proto = 0)),
         Box::new(|s| s.traces.iter_mut().for_each(|t| t.with_source = false)),
         Box::new(|s| s.traces.iter_mut().for_each(|t| t.v6 = false)),
@@ -1143,6 +1151,7 @@ fn gen_setup(rng: &mut Rng) -> Setup {
         geoip_mode: rng.below(12) as u8,
         ext_mode: rng.below(4) as u8,
         dns_ttl: if rng.chance(1, 12) { 1 + rng.below(2) as u8 } else { 0 },
+        locale: if rng.chance(1, 3) { rng.below(16) as u8 } else { 0 },
     }
 }
 
@@ -1391,6 +1400,7 @@ fn simple_setup(ntraces: usize, max_flows: usize) -> Setup {
         geoip_mode: 0,
         ext_mode: 0,
         dns_ttl: 0,
+        locale: 0,
     }
 }
 
@@ -1437,6 +1447,16 @@ fn directed() -> Vec<(&'static str, Setup, Vec<Op>)> {
         ("geoip-map-privacy-3-long", geo(Some(3), 2), walk(6)),
         ("geoip-map-privacy-4-location", geo(Some(4), 3), walk(6)),
         ("geoip-map-privacy-off", geo(None, 1), walk(6)),
+        // every view in every available locale (Chinese, Russian, … : wide and multi-byte texts in narrow panels)
+        ("locales-every-view-1", Setup { locale: 1, ..simple_setup(1, 64) }, { let mut v = walk(3); v.extend([K("toggle_help"), Op::Frame(30, 8), K("toggle_help"), K("toggle_settings"), Op::Frame(40, 10), Op::Frame(120, 40), K("toggle_settings"), K("toggle_flows"), Op::Frame(20, 6), K("toggle_chart"), Op::Frame(25, 7)]); v }),
+        ("locales-every-view-2", Setup { locale: 2, ..simple_setup(1, 64) }, { let mut v = walk(3); v.extend([K("toggle_help"), Op::Frame(30, 8), K("toggle_help"), K("toggle_settings"), Op::Frame(40, 10), K("toggle_settings")]); v }),
+        ("locales-every-view-3", Setup { locale: 3, ..simple_setup(1, 64) }, { let mut v = walk(3); v.extend([K("toggle_help"), Op::Frame(30, 8), K("toggle_help"), K("toggle_settings"), Op::Frame(40, 10), K("toggle_settings")]); v }),
+        ("locales-every-view-4", Setup { locale: 4, ..simple_setup(1, 64) }, { let mut v = walk(3); v.extend([K("toggle_help"), Op::Frame(30, 8), K("toggle_help"), K("toggle_settings"), Op::Frame(40, 10), K("toggle_settings")]); v }),
+        ("locales-every-view-5", Setup { locale: 5, ..simple_setup(1, 64) }, { let mut v = walk(3); v.extend([K("toggle_help"), Op::Frame(30, 8), K("toggle_help"), K("toggle_settings"), Op::Frame(40, 10), K("toggle_settings")]); v }),
+        ("locales-every-view-6", Setup { locale: 6, ..simple_setup(1, 64) }, { let mut v = walk(3); v.extend([K("toggle_help"), Op::Frame(30, 8), K("toggle_help"), K("toggle_settings"), Op::Frame(40, 10), K("toggle_settings")]); v }),
+        ("locales-every-view-7", Setup { locale: 7, ..simple_setup(1, 64) }, { let mut v = walk(3); v.extend([K("toggle_help"), Op::Frame(30, 8), K("toggle_help"), K("toggle_settings"), Op::Frame(40, 10), K("toggle_settings")]); v }),
+        ("locales-every-view-8", Setup { locale: 8, ..simple_setup(1, 64) }, { let mut v = walk(3); v.extend([K("toggle_help"), Op::Frame(30, 8), K("toggle_help"), K("toggle_settings"), Op::Frame(40, 10), K("toggle_settings")]); v }),
+        ("locales-every-view-9", Setup { locale: 9, ..simple_setup(1, 64) }, { let mut v = walk(3); v.extend([K("toggle_help"), Op::Frame(30, 8), K("toggle_help"), K("toggle_settings"), Op::Frame(40, 10), K("toggle_settings")]); v }),
         // host names cached "for ever" and not at all: frames before and after the names have arrived
         ("dns-ttl-for-ever", Setup { dns_ttl: 2, ..simple_setup(1, 64) }, walk(4)),
         ("dns-ttl-zero", Setup { dns_ttl: 1, ..simple_setup(1, 64) }, walk(4)),
